@@ -20,7 +20,7 @@ TextCases(m, k) == UNION {{[t |-> t, cuts |-> cs] : cs \in CutsOf(Len(t), k)} : 
 Times == {<<0, 0>>, <<0, 1>>, <<0, 59>>, <<0, 60>>, <<0, 3599>>, <<0, 3600>>, <<0, 50400>>, <<0, 86399>>, <<0, 86400>>,
           <<951, 782399>>, <<951, 782400>>, <<1234, 567890>>, <<1709, 251199>>, <<2147, 483647>>, <<2147, 483648>>,
           <<4102, 444800>>, <<4294, 967295>>, <<4294, 967296>>, <<8589, 934591>>}
-Micros(full) == IF full THEN {0, 1, 999, 1000, 123456, 250000, 500000, 999999} ELSE {0, 1, 500000, 999999}
+Micros(full) == IF full THEN {0, 1, 123456, 999999} ELSE {0, 1, 500000, 999999}
 Offsets(full) == IF full THEN -840..840
                  ELSE {-840, -839, -720, -570, -210, -61, -60, -59, -30, -1, 0, 1, 30, 59, 60, 61, 330, 345, 765, 840}
 DateCases(full) == {[neg |-> n, hi |-> t[1], lo |-> t[2], us |-> u, off |-> f] :
@@ -46,7 +46,7 @@ WitnessTextCrLf   == ~(Part = "text" /\ c.t = <<"a", "CR", "LF", "CR">> /\ c.cut
                        /\ SpecOut(c).cl = << <<"a", "CR", "LF">>, <<"CR">> >>)
 WitnessTextEmpty  == ~(Part = "text" /\ c.t = <<"LF", "LF">> /\ c.cuts = <<0, 0>> /\ Len(SpecOut(c).lines) = 2)
 WitnessDateHalf   == ~(Part = "date" /\ c.off = 0 - 210 /\ c.hi = 2147 /\ c.lo = 483648 /\ c.us = 999999 /\ ~c.neg)
-WitnessDateNeg    == ~(Part = "date" /\ c.off = 345 /\ c.hi = 0 /\ c.lo = 86400 /\ c.us = 500000 /\ c.neg)
+WitnessDateNeg    == ~(Part = "date" /\ c.off = 345 /\ c.hi = 0 /\ c.lo = 86400 /\ c.us = 999999 /\ c.neg)
 Export == JsonSerialize(IOEnv.VF_OUT, SetToSeq({[c |-> x] : x \in Cases}))
 ASSUME IF "VF_OUT" \in DOMAIN IOEnv THEN Export ELSE TRUE
 =============================================================================
